@@ -1,4 +1,5 @@
 import Vore.Driver.Print
+import Vore.Driver.OpsC04
 /-!
 # Vore.Driver.Ops — registry of the per-property driver operations
 
@@ -8,6 +9,6 @@ Each property that needs its own line-protocol operations defines, in
 -/
 namespace Vore.Driver
 
-def extraOps : List (String → List String → Option String) := []
+def extraOps : List (String → List String → Option String) := [handleC04]
 
 end Vore.Driver
